@@ -104,6 +104,45 @@ def run_writer(calls, main_encoding='utf-8'):
     return w, s, offs
 
 
+def run_writer_reusing(calls, main_encoding='utf-8'):
+    """Same calls, but the caller re-uses its argument OBJECTS: one dict
+    object carries every metadata (cleared and refilled between calls), and
+    equal texts / byte strings / option values are the very same object
+    each time. Returns the stream bytes."""
+    w, s = new_writer(main_encoding)
+    shared = {}
+    pool = {}
+
+    def same(x):
+        if isinstance(x, (str, bytes)):
+            return pool.setdefault((type(x), x), x)
+        return x
+    for c in calls:
+        c = fresh(c) if c and c[0] != 'raw' else c
+        if c[0] == 'meta' and type(c[1]) is dict:
+            shared.clear()
+            shared.update(c[1])
+            c = [c[0], shared] + [same(a) for a in c[2:]]
+        else:
+            c = [c[0]] + [same(a) for a in c[1:]]
+        k = c[0]
+        if k == 'change':
+            w.new_change(encoding=c[1])
+        elif k == 'file':
+            w.new_file(encoding=c[1])
+        elif k == 'preamble':
+            w.write_preamble(c[1], encoding=c[2], indent=c[3],
+                             line_endings=c[4], mimetype=c[5])
+        elif k == 'meta':
+            w.write_meta(c[1], encoding=c[2])
+        elif k == 'diff':
+            w.write_diff(c[1], diff_type=c[2], encoding=c[3],
+                         line_endings=c[4])
+        else:
+            raise ValueError(k)
+    return s.getvalue()
+
+
 def freeze_writer(w):
     d = {k: v for k, v in vars(w).items() if k != 'fp'}
     return freeze(d)
